@@ -29,6 +29,11 @@ def configs(tier, seed):
     for lag in ((0, 30) if st == 'timesorted' or tier == 'thorough' else (0,)):
       for mx in (('inf', 4) if tier == 'quick' else ('inf', 2, 6)):
         cfgs.append(dict(name='%s/lag%d/max%s' % (st, lag, mx), strategy=st, lag=lag, max=mx))
+    # a bounded cache under flow control: the cache-full flag is raised and cleared while the strategy works (with a lag:
+    # a full cache is no reason to hand out what is younger than the lag)
+    for lag in ((0, 30) if st == 'timesorted' else (0,)):
+      for mx in ((3,) if tier == 'quick' else (2, 3, 6)):
+        cfgs.append(dict(name='%s/lag%d/max%s/fc1' % (st, lag, mx), strategy=st, lag=lag, max=mx, fc=True))
     cfgs.append(dict(name='%s/marathon' % st, strategy=st, lag=0, max='inf', marathon=True))
   return cfgs
 
@@ -189,7 +194,7 @@ def run_marathon(cfg, res, ns):
 def run_config(cfg, res):
   from vlib import boot, cachesim, sched as S
   ns = boot.boot('carbon-cache', {'CACHE_WRITE_STRATEGY': cfg['strategy'], 'MAX_CACHE_SIZE': cfg['max'], 'MIN_TIMESTAMP_LAG': cfg['lag'],
-                                  'USE_FLOW_CONTROL': False})
+                                  'USE_FLOW_CONTROL': bool(cfg.get('fc'))})
   if cfg.get('marathon'):
     return run_marathon(cfg, res, ns)
   world = cachesim.World(ns)
